@@ -1,8 +1,8 @@
 """Self-test corpus: each mutant is (name, file, old, new, {property: [substring expected in a VIOLATED key]}).
 Every mutant compiles and is meant to keep the 36 pinned tests green; it breaks exactly one instance."""
 M = []
-def m(name, file, old, new, expect, count=1):
-    M.append(dict(name=name, file=file, old=old, new=new, expect=expect, count=count))
+def m(name, file, old, new, expect, count=1, more=()):
+    M.append(dict(name=name, file=file, old=old, new=new, expect=expect, count=count, more=more))
 
 # ---- C01 / C05
 m('01-no-queue-push', 'src/db.rs', "\t\tqueue.commits.push_back(commit);\n\t\tqueue.bytes += bytes;\n\t\tself.log_worker_wait.signal();", "\t\tdrop(commit);\n\t\tqueue.bytes += bytes;\n\t\tself.log_worker_wait.signal();",
@@ -117,3 +117,7 @@ m('23-marker-collides-with-size', 'src/table.rs', "const MULTIHEAD_COMPRESSED: &
 m('24-size-tiers-not-increasing', 'src/column.rs', "\t32, 33, 34, 35, 36, 37, 38, 39, 40, 41, 42, 43, 44, 46,", "\t32, 33, 34, 35, 36, 37, 38, 39, 40, 41, 42, 44, 44, 46,", {'C06': ['1']})
 # ---- C14
 m('41-no-index-remove-on-delete', 'src/column.rs', "\t\t\t\tindex.write_remove_plan(key, sub_index, log)?;\n\t\t\t\tOk(PlanOutcome::Written)", "\t\t\t\tlet _ = (index, sub_index);\n\t\t\t\tOk(PlanOutcome::Written)", {'C14': ['3']})
+
+# ---- C15 lock order
+m('45-overlay-before-queue-lock', 'src/db.rs', "\tfn commit_raw(&self, commit: CommitChangeSet) -> Result<()> {\n\t\tlet mut queue = self.commit_queue.lock();\n", "\tfn commit_raw(&self, commit: CommitChangeSet) -> Result<()> {\n\t\tlet mut overlay = self.commit_overlay.write();\n\t\tlet mut queue = self.commit_queue.lock();\n",
+  {'C15': ['5b cycle']}, more=[("\t\tlet mut overlay = self.commit_overlay.write();\n\n\t\tqueue.record_id += 1;", "\t\tqueue.record_id += 1;")])
